@@ -30,8 +30,9 @@ let event_ s = match tag s with
   | ("e", [n; p]) -> { M.e_name = str_ n; e_payload = str_ p }
   | _ -> failwith "event"
 let sfile_ s = match list s with
-  | [p; cs; ss; es] ->
-      { M.sf_path = str_ p; sf_cmds = list_ command_ cs; sf_structs = list_ struct_ ss; sf_events = list_ event_ es }
+  | [p; cs; ss; es; nd] ->
+      { M.sf_path = str_ p; sf_cmds = list_ command_ cs; sf_structs = list_ struct_ ss; sf_events = list_ event_ es;
+        sf_ndefs = str_ nd }
   | _ -> failwith "sfile"
 let project_ s = list_ sfile_ s
 let config_ s = match list s with
